@@ -525,9 +525,9 @@ func init() {
 			Technique: "bounded-exhaustive enumeration of histories with backup points + stateless model checking of backup producers vs a concurrent commit (controlled scheduler)",
 			Rule:      "all operation sequences up to the length (maintenance-only prefixes pruned) x NumVersionsToKeep; schedules up to the bound"}
 		if q {
-			p.Stages = []Stage{sched("c24sched", 2, 8, 40, nil), sched("c24load", 2, 4, 30, nil), en("c24seq", 16, 90, prm("len", 3))}
+			p.Stages = []Stage{sched("c24sched", 2, 8, 40, nil), sched("c24load", 2, 4, 30, nil), en("c24seq", 16, 90, prm("len", 3)), en("c25seq", 16, 40, prm("maxsize_only", true))}
 		} else {
-			p.Stages = []Stage{sched("c24sched", 3, 16, 300, nil), sched("c24load", 3, 16, 300, nil), en("c24seq", 16, 1500, prm("len", 5))}
+			p.Stages = []Stage{sched("c24sched", 3, 16, 300, nil), sched("c24load", 3, 16, 300, nil), en("c24seq", 16, 1500, prm("len", 5)), en("c25seq", 16, 300, prm("maxsize_only", true))}
 		}
 		return p
 	}
